@@ -18,6 +18,7 @@ package oauth2
 
 import (
 	"github.com/dadrus/heimdall/internal/x"
+	"github.com/dadrus/heimdall/internal/x/errorchain"
 )
 
 // Claims represents public claim values (as specified in RFC 7519).
@@ -40,6 +41,12 @@ func (c Claims) Validate(exp Expectation) error {
 
 	if err := exp.AssertAudience(c.Audience); err != nil {
 		return err
+	}
+
+	// AssertValidity takes the zero time for "claim not present". An exp claim holding exactly that value
+	// (-62135596800) is present nevertheless: such a token expired long ago.
+	if c.Expiry != nil && c.Expiry.Time().IsZero() {
+		return errorchain.NewWithMessage(ErrAssertion, "expired")
 	}
 
 	if err := exp.AssertValidity(c.NotBefore.Time(), c.Expiry.Time()); err != nil {
